@@ -1,1 +1,10 @@
 //! Helpers of group 'proto' (see GUIDE.md).
+//!
+//! * `scim`: harness-side AST of SCIM filters (serialisable, shrinkable), generators, the
+//!   translation to the two implementations' types (`kanidm_proto::scim_v1` and `scim_proto::filter`),
+//!   an independent nesting measure and an independent minimal-parenthesis printer (C42).
+//! * `pf`: population, LDAP / SCIM filter ASTs and the independent evaluator of their standard meaning (C41).
+//! * `oa`: OAuth2 client configurations, requests and drivers (C38, C39).
+pub mod oa;
+pub mod pf;
+pub mod scim;
